@@ -14,7 +14,7 @@ use crate::Params;
 use graaf::verif as hk;
 use graaf::*;
 
-pub const ORDERS: [usize; 17] = [1, 2, 3, 4, 5, 7, 8, 9, 15, 16, 17, 31, 33, 47, 64, 65, 100];
+pub const ORDERS: [usize; 19] = [1, 2, 3, 4, 5, 7, 8, 9, 15, 16, 17, 31, 33, 47, 64, 65, 100, 129, 257];
 pub const OPS: [&str; 8] = [
     "AdjacencyList::complement",
     "AdjacencyList::complete",
@@ -71,7 +71,7 @@ fn semicomplete_family(r: &mut Rng, n: usize) -> Model {
 
 pub fn case(idx: u64, seed: u64, p: &Params, o: &mut CaseOut) {
     let mut r = Rng::for_case(17, seed, idx);
-    let max = p.usize("max_order", 100);
+    let max = p.usize("max_order", 257);
     let op = (idx as usize) % OPS.len();
     let pick_n = |r: &mut Rng| -> usize { (*r.pick(&ORDERS)).min(max) };
     let n = pick_n(&mut r);
